@@ -28,11 +28,25 @@ type skewDesc struct {
 	M        int    `json:"m"`
 	Schedule []int  `json:"schedule"`
 	Perturb  uint64 `json:"perturb"`
+	// InSub: everything between the start and the end events sits inside 1..2
+	// nested embedded sub-processes
+	InSub int `json:"inSub,omitempty"`
 }
 
 func buildSkew(d skewDesc) (*gen.Graph, string) {
-	b := gen.NewB()
+	root := gen.NewB()
+	b := root
 	st := b.Add(gen.KStart)
+	for lvl := 0; lvl < d.InSub; lvl++ {
+		sp := b.Add(gen.KSub)
+		en := b.Add(gen.KEnd)
+		b.Connect(st, sp)
+		b.Connect(sp, en)
+		ib := b.Sub()
+		sp.Inner = ib.G
+		b = ib
+		st = b.Add(gen.KStart)
+	}
 	fork := b.Add(gen.KPar)
 	b.Connect(st, fork)
 	j := b.Add(gen.KPar)
@@ -51,7 +65,7 @@ func buildSkew(d skewDesc) (*gen.Graph, string) {
 		en := b.Add(gen.KEnd)
 		b.Connect(t, en)
 	}
-	return b.G, j.ID
+	return root.G, j.ID
 }
 
 func TestC03Skew(t *testing.T) {
@@ -73,7 +87,7 @@ func TestC03Skew(t *testing.T) {
 		return
 	}
 	rapid.Check(t, func(rt *rapid.T) {
-		d := skewDesc{M: rapid.IntRange(1, 3).Draw(rt, "m"), Perturb: uint64(rapid.IntRange(0, 200).Draw(rt, "perturb"))}
+		d := skewDesc{M: rapid.IntRange(1, 3).Draw(rt, "m"), Perturb: uint64(rapid.IntRange(0, 200).Draw(rt, "perturb")), InSub: rapid.SampledFrom([]int{0, 0, 1, 2}).Draw(rt, "inSub")}
 		n := rapid.IntRange(2, 3).Draw(rt, "n")
 		equal := rapid.IntRange(0, 3).Draw(rt, "equal") > 0
 		k0 := rapid.IntRange(1, 3).Draw(rt, "k")
@@ -113,6 +127,9 @@ func TestC03Skew(t *testing.T) {
 		cls := []string{fmt.Sprintf("N=%d M=%d", n, d.M), fmt.Sprintf("activations=%d", mn)}
 		if mx > mn {
 			cls = append(cls, "tokensWithoutPartnerStay")
+		}
+		if d.InSub > 0 {
+			cls = append(cls, "insideSubProcess")
 		}
 		rec.Case("TestC03Skew", hash, mx >= 2, cls, map[string]any{"case": d, "steps": out.Steps})
 		if out.Symptom != "" {
